@@ -97,6 +97,8 @@ import NxsModel.Gen.Locks
 import NxsModel.Lemmas.Locks
 import NxsModel.Lemmas.LockFan
 import NxsModel.Lemmas.LockWait
+import NxsModel.LockSem
+import NxsModel.Lemmas.R7C12
 import NxsModel.Props.C07
 namespace Nxs.C12
 open Nxs Nxs.Locks Nxs.LockSteps Nxs.Config Nxs.LocksLemmas
@@ -678,5 +680,190 @@ example : WDeadlocked (producersOf Gen.Locks.table)
   · rcases List.mem_cons.mp ht with rfl | ht
     · exact ⟨⟨.app 0, [.queue], some (.join .stream)⟩, by simp, by simp⟩
     · nomatch ht
+
+/-! ## Round 7: (f) the lock discipline as an INVARIANT of every schedule of any number of threads
+
+`no_deadlock` … `table_no_deadlock` above are about ONE snapshot whose threads are ASSUMED ordered /
+conforming.  `LockSem.lean` adds the dynamics (N threads, each a lock-level program of `acq` / `rel`;
+`run s sched` executes a schedule = list of thread indices; an `acq l` can be executed only when nobody
+holds `l`).  Below: for EVERY number of threads, EVERY program and EVERY executable schedule — induction
+on the schedule, no enumeration. -/
+
+section Round7
+open Nxs.LockSem Nxs.R7C12
+
+/-- MUTUAL EXCLUSION along every schedule: whatever the programs (disciplined or not), however many
+    threads, after any executable schedule no lock is held by two threads. -/
+theorem sched_mutual_exclusion {L : Type} [DecidableEq L] (progs : List (List (Instr L))) (sched : List Nat)
+    (s : List (T L)) (hrun : run (start progs) sched = some s) : Excl s :=
+  run_excl sched _ s hrun (excl_start progs)
+
+/-- The ordered-acquisition discipline is a property of the PROGRAMS that every schedule preserves: if each
+    program acquires every lock while holding only locks of strictly smaller rank (`Disc` at the start),
+    then in every reachable state every thread still satisfies `Disc`, and its snapshot is `Ordered` —
+    the hypothesis of `no_deadlock_of_ordered` is discharged, not assumed. -/
+theorem sched_discipline_invariant {L : Type} [DecidableEq L] (rank : L → Nat) (progs : List (List (Instr L)))
+    (hd : ∀ p ∈ progs, Disc rank ⟨[], p⟩) (sched : List Nat) (s : List (T L))
+    (hrun : run (start progs) sched = some s) :
+    ∀ t ∈ s, Disc rank t ∧ Ordered rank (view t) := by
+  have h0 : ∀ t ∈ start progs, Disc rank t := by
+    intro t ht
+    obtain ⟨p, hp, rfl⟩ := List.mem_map.mp ht
+    exact hd p hp
+  have := run_preserves_all (Q := Disc rank) (fun t ht => okProg_stepT t ht) sched _ s hrun h0
+  exact fun t ht => ⟨this t ht, disc_ordered rank t (this t ht)⟩
+
+/-- No reachable state contains a deadlocked set of threads (in the sense of `Deadlocked` of part (b)). -/
+theorem sched_never_deadlocked {L : Type} [DecidableEq L] (rank : L → Nat) (progs : List (List (Instr L)))
+    (hd : ∀ p ∈ progs, Disc rank ⟨[], p⟩) (sched : List Nat) (s : List (T L))
+    (hrun : run (start progs) sched = some s) (S : List (Thr L)) (hS : ∀ v ∈ S, ∃ t ∈ s, view t = v) :
+    ¬ Deadlocked S := by
+  refine no_deadlock_of_ordered rank S (fun v hv => ?_)
+  obtain ⟨t, ht, rfl⟩ := hS v hv
+  exact (sched_discipline_invariant rank progs hd sched s hrun t ht).2
+
+/-- PROGRESS (no stuck state): in every reachable state of disciplined programs either every thread has
+    finished holding nothing, or some thread can execute its next instruction.  Stronger than "no
+    deadlocked set": it also excludes a thread blocked on a lock whose holder has finished. -/
+theorem sched_no_stuck_state {L : Type} [DecidableEq L] (rank : L → Nat) (progs : List (List (Instr L)))
+    (hd : ∀ p ∈ progs, Disc rank ⟨[], p⟩) (sched : List Nat) (s : List (T L))
+    (hrun : run (start progs) sched = some s) :
+    Finished s ∨ ∃ i s', step s i = some s' := by
+  have hinv := fun t ht => (sched_discipline_invariant rank progs hd sched s hrun t ht).1
+  by_cases hne : ∃ t ∈ s, t.prog ≠ []
+  · exact .inr (progress rank s hinv hne)
+  · exact .inl (finished_of_no_work hinv hne)
+
+/-- EVERY SCHEDULE RUNS TO COMPLETION: an executable schedule of disciplined programs has at most
+    `work` (= total number of instructions) steps, and it can always be continued to a state in which all
+    threads have finished holding nothing; the completed schedule has exactly `work` steps. -/
+theorem sched_completes {L : Type} [DecidableEq L] (rank : L → Nat) (progs : List (List (Instr L)))
+    (hd : ∀ p ∈ progs, Disc rank ⟨[], p⟩) (sched : List Nat) (s : List (T L))
+    (hrun : run (start progs) sched = some s) :
+    sched.length ≤ work (start progs) ∧
+    ∃ more s', run (start progs) (sched ++ more) = some s' ∧ Finished s' ∧
+      (sched ++ more).length = work (start progs) := by
+  have hinv := fun t ht => (sched_discipline_invariant rank progs hd sched s hrun t ht).1
+  have hw := run_work sched _ s hrun
+  refine ⟨by omega, ?_⟩
+  obtain ⟨more, s', hr, hf⟩ := completes rank (work s) s (Nat.le_refl _) hinv
+  have hall := run_append sched more _ s s' hrun hr
+  refine ⟨more, s', hall, hf, ?_⟩
+  have hw' := run_work _ _ s' hall
+  have h0 : work s' = 0 := by
+    clear hw' hall hr
+    induction s' with
+    | nil => rfl
+    | cons t s' ih =>
+      have := (hf t (by simp)).1
+      simp only [work, this, List.length_nil, Nat.zero_add]
+      exact ih (fun u hu => hf u (by simp [hu]))
+  omega
+
+/-- The generated lock table carries this over to the library: ANY number of threads, each running ANY
+    sequence of lock operations in which every acquisition happens at an acquisition site of
+    `Gen.Locks.table` holding at most the locks recorded there (and `with`-balanced), under ANY schedule:
+    mutual exclusion, no deadlocked set, no stuck state, and completion within `work` steps. -/
+theorem table_threads_run_to_completion (progs : List (List (Instr Lock)))
+    (hd : ∀ p ∈ progs, TableThread Gen.Locks.table ⟨[], p⟩) (sched : List Nat) (s : List (T Lock))
+    (hrun : run (start progs) sched = some s) :
+    Excl s ∧ (∀ t ∈ s, Ordered Lock.rank (view t)) ∧ (Finished s ∨ ∃ i s', step s i = some s') ∧
+    sched.length ≤ work (start progs) ∧
+    ∃ more s', run (start progs) (sched ++ more) = some s' ∧ Finished s' := by
+  have hd' : ∀ p ∈ progs, Disc Lock.rank ⟨[], p⟩ :=
+    fun p hp => tableThread_disc lock_table_facts.2.1 _ (hd p hp)
+  obtain ⟨hlen, more, s', hr, hf, -⟩ := sched_completes Lock.rank progs hd' sched s hrun
+  exact ⟨sched_mutual_exclusion progs sched s hrun,
+    fun t ht => (sched_discipline_invariant Lock.rank progs hd' sched s hrun t ht).2,
+    sched_no_stuck_state Lock.rank progs hd' sched s hrun, hlen, more, s', hr, hf⟩
+
+/-! ### non-vacuity of (f) -/
+
+/-- three table-conforming threads: a writer (channels → devinfo nested), the dummy device (dummydev →
+    devinfo nested), a subscriber (queue) -/
+def r7progs : List (List (Instr Lock)) :=
+  [[.acq .channels, .acq .devinfo, .rel .devinfo, .rel .channels, .acq .channels, .rel .channels],
+   [.acq .dummydev, .acq .devinfo, .rel .devinfo, .rel .dummydev],
+   [.acq .queue, .rel .queue, .acq .channels, .rel .channels]]
+
+example : ∀ p ∈ r7progs, TableThread Gen.Locks.table ⟨[], p⟩ := by
+  have h : (r7progs.all fun p => okProgB (siteOk Gen.Locks.table.acqs) [] p) = true := by decide +kernel
+  exact fun p hp => List.all_eq_true.mp h p hp
+
+/-- a schedule in which the writer holds channels + devinfo while the other two are blocked / running -/
+example : (run (start r7progs) [0, 1, 0, 2, 2, 0]).isSome = true ∧
+    -- thread 2 wants `channels` while thread 0 holds it: not enabled
+    (run (start r7progs) [0, 2, 2, 2]).isSome = false ∧
+    -- thread 1 wants `devinfo` while thread 0 holds it: not enabled
+    (run (start r7progs) [0, 0, 1, 1]).isSome = false ∧
+    work (start r7progs) = 14 := by decide +kernel
+
+/-- the discipline is necessary: two threads nesting the same two locks in opposite orders reach, after the
+    schedule [0, 1], a state that is not finished and in which nobody can move -/
+example : ∃ s, run (start [[Instr.acq Lock.queue, .acq .channels, .rel .channels, .rel .queue],
+                           [.acq .channels, .acq .queue, .rel .queue, .rel .channels]]) [0, 1] = some s ∧
+    s.length = 2 ∧ step s 0 = none ∧ step s 1 = none ∧ ¬ Finished s := by
+  refine ⟨_, rfl, by decide, by decide, by decide, fun h => ?_⟩
+  have := (h _ (List.mem_cons_self ..)).1
+  exact absurd this (by decide)
+
+/-- Conformance to the table is itself preserved by every step: in every reachable state of table-conforming
+    programs every thread's snapshot satisfies `Conforms Gen.Locks.table.acqs` — the hypothesis of
+    `table_no_deadlock` (part (b)) holds along every schedule instead of being assumed per snapshot. -/
+theorem sched_conforms_table (progs : List (List (Instr Lock)))
+    (hd : ∀ p ∈ progs, TableThread Gen.Locks.table ⟨[], p⟩) (sched : List Nat) (s : List (T Lock))
+    (hrun : run (start progs) sched = some s) :
+    ∀ t ∈ s, Conforms Gen.Locks.table.acqs (view t) := by
+  have h0 : ∀ t ∈ start progs, OkProg (SiteP Gen.Locks.table.acqs) t.holds t.prog := by
+    intro t ht
+    obtain ⟨p, hp, rfl⟩ := List.mem_map.mp ht
+    exact okProg_of_okProgB (siteOk_siteP _) p [] (hd p hp)
+  have := run_preserves_all (Q := fun t => OkProg (SiteP Gen.Locks.table.acqs) t.holds t.prog)
+    (fun t ht => okProg_stepT t ht) sched _ s hrun h0
+  exact fun t ht => siteP_conforms _ t (this t ht)
+
+/-- INDEPENDENCE of critical-section boundaries: in any state (any number of threads, any programs), if two
+    different threads can both execute their next lock operation and they do not both try to acquire the
+    same lock, the two steps can be taken in either order and lead to the same state; in particular a step
+    of one thread never disables such a step of another. -/
+theorem sched_steps_commute {L : Type} [DecidableEq L] (s : List (T L)) (i j : Nat) (ti tj : T L)
+    (hij : i ≠ j) (hi : s[i]? = some ti) (hj : s[j]? = some tj)
+    (hei : enabled s ti = true) (hej : enabled s tj = true)
+    (hdiff : ∀ l, (view ti).waits = some l → (view tj).waits ≠ some l) :
+    ∃ s1 s2 s', step s i = some s1 ∧ step s j = some s2 ∧ step s1 j = some s' ∧ step s2 i = some s' := by
+  obtain ⟨h1, h2, h3, h4⟩ := step_diamond hij hi hj hei hej hdiff
+  exact ⟨_, _, _, h1, h2, h3, h4⟩
+
+/-- the literal reading of "every schedule runs to completion": a schedule of disciplined programs that
+    cannot be extended (no thread can move) has finished every thread, each holding nothing -/
+theorem sched_maximal_finished {L : Type} [DecidableEq L] (rank : L → Nat) (progs : List (List (Instr L)))
+    (hd : ∀ p ∈ progs, Disc rank ⟨[], p⟩) (sched : List Nat) (s : List (T L))
+    (hrun : run (start progs) sched = some s) (hmax : ∀ i, step s i = none) : Finished s := by
+  rcases sched_no_stuck_state rank progs hd sched s hrun with h | ⟨i, s', h⟩
+  · exact h
+  · rw [hmax i] at h
+    nomatch h
+
+/-- the lock-level program of one acquisition site: take the locks recorded as held (outermost first), take
+    the site's lock, release everything in reverse order -/
+def siteProg (a : Acq) : List (Instr Lock) :=
+  a.held.map .acq ++ [.acq a.acquires, .rel a.acquires] ++ a.held.reverse.map .rel
+
+/-- the model's programs cover the table: EVERY one of the acquisition sites of `Gen.Locks.table`, with
+    exactly the locks recorded as held there, is the program of a `TableThread` (so the hypotheses of
+    `table_threads_run_to_completion` are satisfied by each recorded site, nested ones included) -/
+theorem table_sites_are_programs :
+    (Gen.Locks.table.acqs.all fun a => okProgB (siteOk Gen.Locks.table.acqs) [] (siteProg a)) = true := by
+  decide +kernel
+
+example : ∃ a ∈ Gen.Locks.table.acqs, a.held ≠ [] := by decide +kernel
+
+/-- the hypotheses of `sched_steps_commute` hold at the start of `r7progs` for the writer and the dummy
+    device, and both orders give the same state; the race for ONE lock (two writers) is excluded -/
+example : run (start r7progs) [0, 1] = run (start r7progs) [1, 0] ∧ (run (start r7progs) [0, 1]).isSome = true ∧
+    (run (start [[Instr.acq Lock.channels, .rel .channels], [.acq .channels, .rel .channels]]) [0, 1]).isSome = false := by
+  decide +kernel
+
+end Round7
 
 end Nxs.C12
